@@ -23,3 +23,11 @@ def run(ctx):
     tables.scan_builders(ctx, s, puts)
     tables.stats_mapping(ctx, s)
     lossy_rechecks(ctx, s)
+    from . import C05 as q
+    fe = ctx.fn(q.FIND)
+    filt = None
+    for i in range(1, fe.argc + 1):
+        if fe.locals[i]["ty"]["s"].endswith("Filter"):
+            filt = ("param", i)
+    q.other_exits(ctx, s, fe, filt)
+    q.drain(ctx, s, fe)
